@@ -612,6 +612,9 @@ func (m *Machine) runFrame(fr *frame) {
 			if m.path.steps > m.ex.Lim.MaxSteps {
 				m.path.abort("incomplete", "step budget exceeded")
 			}
+			if m.ex.Lim.HangSteps > 0 && m.path.steps > m.ex.Lim.HangSteps {
+				m.path.abort("hang", "step budget for termination exceeded")
+			}
 			switch m.visit(fr, blk.Instrs[i]) {
 			case kReturn:
 				return
